@@ -204,6 +204,9 @@ def emit_put(p, rng, v, mt, coll, parts, cellvals, tagset, use_imap=True):
     of the logical region to its value, so the data written does not depend on the decomposition."""
     texts = {}
     family = None
+    swapfocus = bool(p.lines) and 'nc_in_place_swap=enable' in p.lines[0]
+    if swapfocus and v.xt != 'char' and rng.chance(2, 3):
+        mt = NATIVE[v.xt]          # no conversion: the in-place byte-swap shortcut is only considered then
     if coll:
         can_varn = v.dims and all(pt is None or all(k == 1 for k in pt[2]) for pt in parts)
         family = 'varn' if (can_varn and rng.chance(1, 4)) else 'sub'
@@ -232,7 +235,7 @@ def emit_put(p, rng, v, mt, coll, parts, cellvals, tagset, use_imap=True):
         form = choose_form(rng, st, ct, sd, family)
         n = nelems(ct)
         vals = [cellvals[c] for c in region_cells(st, ct, sd)]
-        lay = pick_layout(rng)
+        lay = pick_layout(rng, plain=(1 if swapfocus else 3))
         imap = None
         if form == 'varm':
             if use_imap and rng.chance(1, 2) and len(ct) >= 2:
